@@ -28,22 +28,23 @@ type procEvent struct {
 }
 
 type Proc struct {
-	ID            string
-	cmd           *exec.Cmd
-	conn          net.Conn
-	State         string // running | paused | exited | killed
-	Point         string // pending point when paused
-	KV            string
-	LastPt        string // last point passed
-	InCS          bool
-	Entered       int
-	Tries         int
-	Code          int
-	stale         string // reason of the last stale-remove this process performed
-	staleVictimAt map[string]string
-	readSinceTry  bool
-	lastRead      string
-	Cancelled     bool // SIGTERM was sent while it was waiting for the lock
+	ID              string
+	cmd             *exec.Cmd
+	conn            net.Conn
+	State           string // running | paused | exited | killed
+	Point           string // pending point when paused
+	KV              string
+	LastPt          string // last point passed
+	InCS            bool
+	Entered         int
+	Tries           int
+	Code            int
+	stale           string // reason of the last stale-remove this process performed
+	staleVictimAt   map[string]string
+	readSinceTry    bool
+	waitedSinceRead bool // passed lock.wait (slept) after its last read of the lock file
+	lastRead        string
+	Cancelled       bool // SIGTERM was sent while it was waiting for the lock
 }
 
 type Sched struct {
@@ -194,6 +195,12 @@ func (s *Sched) release(p *Proc) {
 		p.Tries++
 		p.readSinceTry = false
 	}
+	if p.Point == "lock.wait" {
+		p.waitedSinceRead = true
+	}
+	if p.Point == "lock.read" {
+		p.waitedSinceRead = false
+	}
 	if p.Point == "lock.read" {
 		// exactly one process moves at a time: this is what the read will return
 		b, _ := os.ReadFile(s.lockFile)
@@ -224,7 +231,9 @@ func (s *Sched) release(p *Proc) {
 				}
 				if c == fmt.Sprint(q.cmd.Process.Pid) && (ph == "pid-written-not-returned" || ph == "holding") {
 					switch {
-					case !p.readSinceTry:
+					case !p.readSinceTry || p.waitedSinceRead:
+						// the decision rests on what the file said before the last try / the last
+						// wait: the file was not read again in this attempt
 						s.Causes["remove-without-reading-the-lock-file-in-this-attempt"] = true
 					case p.lastRead == c:
 						s.Causes["remove-of-a-lock-read-as-belonging-to-a-live-process"] = true
